@@ -330,6 +330,31 @@ func runC11(c *ctx, r *Report) error {
 		}
 		r.nontrivial("lint:" + e)
 	}
+	// the action and its input in every letter case (GitHub resolves owner/repo case-insensitively; the input key is folded by
+	// the parser): the script input is a script position for every spelling — and is none for another action
+	for _, spec := range []struct {
+		uses   string
+		script bool
+	}{{"actions/github-script@v7", true}, {"Actions/GitHub-Script@v7", true}, {"ACTIONS/GITHUB-SCRIPT@main", true}, {"actions/Github-script@60a0d83039c74a4aee543508d2ffcb1c3799cdea", true},
+		{"actions/github-script-x@v1", false}, {"actions/github-script/sub@v7", false}, {"xactions/github-script@v7", false}} {
+		for _, key := range []string{"script", "Script", "SCRIPT"} {
+			src := fmt.Sprintf("on: issues\njobs:\n  j:\n    runs-on: ubuntu-latest\n    steps:\n      - uses: %s\n        with:\n          %s: console.log('${{ github.event.issue.title }}')\n          other: ${{ github.event.issue.title }}\n", spec.uses, key)
+			got, err := lintUntrusted(src)
+			r.Evaluations++
+			if err != nil {
+				return err
+			}
+			ok := len(got) == 0
+			if spec.script {
+				ok = len(got) == 1 && strings.HasPrefix(got[0], "8:")
+			}
+			if !ok {
+				r.finding("script-position:action-spelling", fmt.Sprintf("uses: %s with %s: — untrusted-input reports at %v; the script input of actions/github-script (in any letter case) is a script position: %v", spec.uses, key, got, spec.script),
+					Case{Op: "lint", Input: map[string]string{"yaml": src}})
+			}
+			r.nontrivial("lint-spelling:" + spec.uses + ":" + key)
+		}
+	}
 	// several placeholders in one script string: each one that reads an untrusted input is reported
 	{
 		src := "on: issues\njobs:\n  j:\n    runs-on: ubuntu-latest\n    steps:\n      - run: echo ${{ github.event.issue.title }} and ${{ github.head_ref }} and ${{ github.event.issue.body }}\n"
